@@ -1,5 +1,5 @@
 import Bng.Drv.Common
-import Bng.Model.DhcpTerm
+import Bng.Model.DhcpTermMonitor
 /-
   bngdrv component `dhcpterm` (property C16, DHCPv4 paths): replays traces of the real dhcp.Server running with the
   real nat.Manager, qos.Manager, ebpf.Loader (real kernel maps) and a loopback RADIUS accounting server
@@ -17,15 +17,6 @@ import Bng.Model.DhcpTerm
 -/
 namespace Bng.Drv.DhcpTermDrv
 open Bng Bng.Drv Bng.DhcpTerm
-
-def insertBy {α : Type} (le : α → α → Bool) (x : α) : List α → List α
-  | [] => [x]
-  | y :: rest => if le x y then x :: y :: rest else y :: insertBy le x rest
-
-def sortBy {α : Type} (le : α → α → Bool) (l : List α) : List α := l.foldl (fun acc x => insertBy le x acc) []
-
-def sortNat (l : List Nat) : List Nat := sortBy (fun a b => a ≤ b) l
-def sortPair (l : List (Nat × Nat)) : List (Nat × Nat) := sortBy (fun a b => a.1 < b.1 || (a.1 == b.1 && a.2 ≤ b.2)) l
 
 def joinOr (xs : List String) : String := if xs.isEmpty then "-" else ",".intercalate xs
 
@@ -171,9 +162,7 @@ def parseSnap (impl : String) : Snap :=
 
 structure St where
   model : Option State := none
-  prev  : Snap := {}
-  /-- MACs whose current lease was made from a stale circuit-id index entry (model: `staleHit`) -/
-  revived : List Nat := []
+  mon   : Mon := {}
 
 def showReply : Reply → String
   | .offer ip => s!"offer:a{ip}"
@@ -194,15 +183,6 @@ def termMac : Term → Option Nat
   | .rel m => some m
   | .dec m _ => some m
   | .cleanup _ => none
-
-def termKind : Term → List (Nat × Option Nat)
-  | .rel m => [(m, none)]
-  | .dec m a => [(m, some a)]
-  | .cleanup _ => []
-
-def isCleanup : Term → Bool
-  | .cleanup _ => true
-  | _ => false
 
 def termReply : Term → String
   | .cleanup _ => "ok"
@@ -227,7 +207,7 @@ def step (st : St) (toks : List String) (impl : String) : St × LineResult :=
     | some lt =>
       if (r == "radius" || r == "noradius") && 1 ≤ lt && lt ≤ 100000 then
         let m := init (r == "radius") lt
-        (({ model := some m, prev := parseSnap impl, revived := [] } : St), ({ modelObs := "ok " ++ showSnapshot m } : LineResult))
+        (({ model := some m, mon := { prev := parseSnap impl } } : St), ({ modelObs := "ok " ++ showSnapshot m } : LineResult))
       else (st, { modelObs := "badop" })
     | none => (st, { modelObs := "badop" })
   match toks with
@@ -244,33 +224,28 @@ def step (st : St) (toks : List String) (impl : String) : St × LineResult :=
       let discCid : Option Nat := match toks with
         | ["disc", _, c] => (parseCid c).getD none
         | _ => none
-      -- fill in the map-iteration order; decide reply prefix, model state, monitor kind
-      let res : Option (State × String × Kind) :=
+      -- fill in the map-iteration order; decide reply prefix, model state, and the operation as the monitor sees it
+      let res : Option (State × String × OpX) :=
         match parseEstGap toks with
         | some (k, a, c, inner) =>
           let inner := withOrder order inner
           let (m', r, ran) := estGap m k a c inner
-          let m' := fixStale m'
-          if ran then
-            some (m', s!"estgap {showReply r} {termReply inner}",
-                  { terms := termKind inner, sweep := isCleanup inner, established := some (k, a) })
-          else some (m', s!"estgap {showReply r} notrun", {})
+          some (m', s!"estgap {showReply r} {if ran then termReply inner else "notrun"}", .estGap k a c inner)
         | none =>
         match parseOp toks with
         | none => none
         | some op =>
         match op with
-        | .disc k => let (m', r) := stepX m (.disc k discCid); some (m', showReply r, {})
-        | .req k a c => let (m', r) := stepX m (.op (.req k a c)); some (m', showReply r, {})
-        | .tick n => some ((DhcpTerm.step m (.tick n)).1, "ok", {})
+        | .disc k => let (m', r) := stepX m (.disc k discCid); some (m', showReply r, .disc k discCid)
+        | .req k a c => let (m', r) := stepX m (.op (.req k a c)); some (m', showReply r, .op (.req k a c))
+        | .tick n => some ((DhcpTerm.step m (.tick n)).1, "ok", .op (.tick n))
         | .term t =>
           let t := withOrder order t
-          some (t.run m, termReply t, { terms := termKind t, sweep := isCleanup t })
+          some (t.run m, termReply t, .op (.term t))
         | .gap _ inner =>
           let inner := withOrder order inner
           let (m', ran) := gap m order inner
-          if ran then some (m', "gap " ++ termReply inner, { terms := termKind inner, sweep := true })
-          else some (m', "gap notrun", { sweep := true })
+          some (m', if ran then "gap " ++ termReply inner else "gap notrun", .op (.gap order inner))
         | .split a b =>
           if splitRefused m a b then none else
           let b := withOrder order b
@@ -278,30 +253,23 @@ def step (st : St) (toks : List String) (impl : String) : St × LineResult :=
             | .rel k => (takeRelease m k).2.isSome
             | .dec k ip => (takeDecline m k ip).2.isSome
             | .cleanup _ => false
-          some (split m a b, s!"split {if stalled then "stalled" else "ran"} {termReply a} {termReply b}",
-                { terms := termKind a ++ termKind b, sweep := isCleanup b })
+          some (split m a b, s!"split {if stalled then "stalled" else "ran"} {termReply a} {termReply b}", .op (.split a b))
         | .shutdown =>
           -- `nobind`: the harness could not open the server socket, the shutdown branch was not reached
-          if implHead == "nobind" then some (m, "nobind", {}) else some (m, "down", { shutdown := true })
+          some (m, if implHead == "nobind" then "nobind" else "down", .op .shutdown)
       match res with
       | none => (st, { modelObs := "badop" })
-      | some (m', reply, kind) =>
+      | some (m', reply, mop) =>
         let m' := fixStale m'
-        let cur := parseSnap impl
-        -- a REQUEST (plain or raced) that the slow path answered from a stale index entry: the lease it makes is a
-        -- revived dead lease, until that lease is gone again
-        let hit : Option Nat := match parseEstGap toks, toks with
-          | some (k, _, c, _), _ => if (staleHit m k c).isSome then some k else none
-          | none, ["req", k, _, c] => match parseMac k, parseCid c with
-            | some k, some c => if (staleHit m k c).isSome then some k else none
-            | _, _ => none
-          | none, _ => none
-        let revNow := match hit with
-          | some k => if st.revived.contains k then st.revived else k :: st.revived
-          | none => st.revived
-        let vs := monitor st.prev cur { kind with revived := revNow }
-        ({ model := some m', prev := cur, revived := revNow.filter fun k => (AMap.lookup m'.leases k).isSome },
-         { modelObs := reply ++ " " ++ showSnapshot m', viols := vs })
+        -- the judgment: Bng.DhcpTerm.monitorCore on the IMPLEMENTATION's observation.  `ran` is read off the
+        -- implementation's reply (gap notrun / estgap … notrun / nobind)
+        let implRan := !(((splitTokens impl).take 3).contains "notrun") && implHead != "nobind"
+        let (mon', vs) := monitorCore st.mon mop { snap := parseSnap impl, ran := implRan }
+        -- the string layer is outside the refinement theorem (Spec.C16DhcpMon): cross-check it on the model's own line
+        let shown := showSnapshot m'
+        let rt := if parseSnap shown == obsOf m' then [] else
+          [("obs-roundtrip", "none", s!"parseSnap (showSnapshot ·) ≠ obsOf · on the model's own observation {shown}")]
+        ({ model := some m', mon := mon' }, { modelObs := reply ++ " " ++ shown, viols := vs ++ rt })
 
 def component : Component := { σ := St, init := {}, step := step }
 
